@@ -19,7 +19,7 @@ func init() {
 	t["C13"] = "SSA guarded taint (edge-sensitive), phi-edge guard analysis"
 	t["C18"] = "SSA must-facts dataflow with iteration-local and derived facts (validation gates)"
 	t["C19"] = "SSA obligation-as-fact dataflow (tolerated-error classification), who-may-write"
-	t["C20"] = "SSA sticky-error gating and ordering dataflow, error-result consumption, who-may-call"
+	t["C20"] = "SSA sticky-error gating and ordering dataflow, error-result consumption, who-may-call, lockset for flusher.Mutex"
 	t["C22"] = "SSA error-gated dominance with closure summaries, lock region, who-may-call/write, error-identity (no-wrap) check over the producers' call trees"
 	t["C24"] = "SSA error-gated dominance + value provenance"
 	t["C27"] = "SSA error-gated dominance (checksum gate), who-may-call, derived guard facts"
